@@ -1,7 +1,7 @@
 //! C16 An I/O error stops the writer cleanly and never corrupts the database.
 
 use super::{c02::*, *};
-use crate::{image::*, interp::*, model::*, runner::*, spec::*};
+use crate::{image::*, interp::*, runner::*, spec::*};
 use proptest::prelude::*;
 use serde::{Deserialize, Serialize};
 use std::path::Path;
